@@ -57,7 +57,8 @@ def run_segment(ld, n, cdir, ops, sleep=0.0, handles=None):
             try:
                 if k == 'open':
                     try:
-                        d = ld.new(list(range(n))).map(fn).diskcache(cache_dir=cdir, reuse=op[1], clear=op[2])
+                        keyed = len(op) > 3 and op[3]
+                        d = ld.new({f'k{i}': i for i in range(n)} if keyed else list(range(n))).map(fn).diskcache(cache_dir=cdir, reuse=op[1], clear=op[2])
                     except RuntimeError:
                         outs.append(['refused'])
                         continue
@@ -70,6 +71,8 @@ def run_segment(ld, n, cdir, ops, sleep=0.0, handles=None):
                     outs.append(['nohandle'])
                 elif k == 'get':
                     outs.append(['val', enc(d[op[2]], op[2] % n if -n <= op[2] < n else op[2])])
+                elif k == 'getkey':
+                    outs.append(['val', enc(d[f'k{op[2]}'], op[2])])
                 elif k == 'getnp':
                     import numpy as np
                     outs.append(['val', enc(d[np.int64(op[2])], op[2] % n if -n <= op[2] < n else op[2])])
@@ -154,7 +157,7 @@ def coq_ops(segments):
         for op in ops:
             k = op[0]
             if k == 'open': out.append(f'DOpen {b(op[1])} {b(op[2])}')
-            elif k in ('get', 'getnp'): out.append(f'DGet {op[1]}%nat {gen_a.z(op[2])}')
+            elif k in ('get', 'getnp', 'getkey'): out.append(f'DGet {op[1]}%nat {gen_a.z(op[2])}')
             elif k == 'slice':
                 for i in range(op[2], op[3]):
                     out.append(f'DGet {op[1]}%nat {i}')
@@ -255,7 +258,7 @@ def run(tier):
     opc = collections.Counter(o[0] for n, segs in hist for s in segs for o in s)
     cov = dict(programs=len(hist), evaluations=len(hist), distinct=len(set(repr(h) for h in hist)),
                distinct_nontrivial=len(set(repr(h) for h in hist if sum(len(s) for s in h[1]) >= 4)),
-               rule='lifecycles over one directory: open(reuse, clear) / get (either sign) / copy / release / reopen, all reuse x clear combinations, '
+               rule='lifecycles over one directory (list- and dict-backed sources): open(reuse, clear) / get (either sign, numpy integer, string key) / slice / copy / release / reopen, all reuse x clear combinations, '
                     'sequential wrappers; kill histories run each pre-kill segment in a child process that SIGKILLs itself; non-trivial = >= 4 ops',
                traces_validated_against_impl=len(hist), disagreements_checked=len(bad), op_histogram=dict(opc),
                kill_histories=NK, random_instant_kills=4 if tier == 'quick' else 50,
@@ -269,6 +272,7 @@ def gen_history_consistent(r, n, nseg):
     exists = False
     nh = 0
     segments = []
+    keyed = r.random() < 0.5        # dict-backed source: examples can be addressed by their string key as well
     for si in range(nseg):
         ops = []
         live = {}        # handle id -> wrapper id
@@ -276,7 +280,7 @@ def gen_history_consistent(r, n, nseg):
         for _ in range(r.randint(1, 8)):
             if not live:
                 reuse, clear = r.random() < 0.6, r.random() < 0.5
-                ops.append(['open', reuse, clear])
+                ops.append(['open', reuse, clear, keyed])
                 if exists and not reuse:
                     continue
                 exists = True
@@ -286,10 +290,12 @@ def gen_history_consistent(r, n, nseg):
                 nh += 1
                 continue
             h = r.choice(list(live))
-            k = r.choice(['get', 'get', 'getnp', 'slice', 'copy', 'release', 'release'])
+            k = r.choice(['get', 'get', 'getnp', 'slice', 'copy', 'release', 'release'] + (['getkey', 'getkey'] if keyed else []))
             if r.random() < 0.05:
                 h = nh + 3
-            if k in ('get', 'getnp'):
+            if k == 'getkey':
+                ops.append([k, h, r.randint(0, n - 1)])
+            elif k in ('get', 'getnp'):
                 ops.append([k, h, r.randint(-n - 1, n)])
             elif k == 'slice':
                 a, b = sorted([r.randint(0, n), r.randint(0, n)])
